@@ -370,6 +370,26 @@ def rnd_randrange(I, a, k):
     return v
 
 
+def rnd_sample(I, a, k):
+    """random.sample(pop, k): k members of pop at pairwise distinct positions"""
+    pop, kk = a[0], a[1]
+    if not isinstance(kk, int):
+        raise Unsupported('random.sample with symbolic k')
+    ln, arr, ek = Mo.to_slist(I, pop)
+    if not I.st.branch(ln >= kk):
+        raise PyExc('ValueError', 'Sample larger than population or is negative')
+    out, pos = [], []
+    for j in range(kk):
+        p = _draw(I, 'rnd_sample_pos', 'int')
+        I.st.assume(z3.And(p.t >= 0, p.t < ln))
+        for q in pos:
+            I.st.assume(p.t != q.t)
+        pos.append(p)
+        out.append(SV(z3.Select(arr, p.t), ek))
+    I.st.ghost.setdefault('rand_sample', []).append(tuple(out))
+    return I.st.alloc('clist', out)
+
+
 def f_reduce(I, a, k):
     items = Mo.concrete_iter(I, a[1])
     if items is None:
@@ -740,6 +760,7 @@ def lib_lookup(I, dotted):
         'functools.reduce': Builtin('functools.reduce', f_reduce),
         'itertools.cycle': Builtin('itertools.cycle', it_cycle),
         'random.random': Builtin('random.random', rnd_random),
+        'random.sample': Builtin('random.sample', rnd_sample),
         'random.randint': Builtin('random.randint', rnd_randint),
         'random.uniform': Builtin('random.uniform', rnd_uniform),
         'random.randrange': Builtin('random.randrange', rnd_randrange),
